@@ -288,5 +288,22 @@ func ruleC06(p *Program, r *Run) {
 		})
 		return true
 	})
+	// the standard-library spelling of the same loop: maps.Copy(scope, opts.Parameters)
+	ast.Inspect(compile.Body, func(nn ast.Node) bool {
+		call, ok := nn.(*ast.CallExpr)
+		if !ok || len(call.Args) != 2 {
+			return true
+		}
+		if f := Callee(info, call); f == nil || f.Pkg() == nil || f.Pkg().Path() != "maps" || f.Name() != "Copy" {
+			return true
+		}
+		if f := selField(info, call.Args[1]); f == nil || f.Name() != "Parameters" {
+			return true
+		}
+		if ok2, _ := p.scopeProvenance(compile, call.Args[0], 0); ok2 {
+			copied = true
+		}
+		return true
+	})
 	r.Check(copied, "C06/copy", fn+" parameters enter the scope", p.Pos(compile.Pos()), "every parameter is copied into the fresh scope map (verbatim)", "the parameters are not copied key by key into the scope map")
 }
